@@ -193,6 +193,13 @@ def run(ctx):
             if dl + 4 <= 255:
                 hs2 = v + "0000P0TE00N0100" + "KS" + "%02X" % (dl + 4) + t.rstr(rng, dl, t.ALNUM)
                 wrap_items.append((rng.randbytes(t.KBPK_SIZES[v][-1]), hs2, rng.randbytes(16), None))
+    # one huge optional block (only expressible with a length-of-length of 3 or more): around 2^16 characters, where the
+    # two-byte extended length of the serialiser overflows; load accepts, wrap must answer with the module's error
+    for L in ((65525, 65526, 65535, 65536) if not ctx.thorough else (65520, 65525, 65526, 65530, 65535, 65536, 65537, 70000, 131072)):
+        v = rng.choice("ABCD")
+        hs = v + "0000P0TE00N0100" + "KS0003" + "%06X" % (L + 12) + t.rstr(rng, L, t.ALNUM)
+        wrap_items.append((rng.randbytes(t.KBPK_SIZES[v][-1]), hs, rng.randbytes(16), None))
+        load_items.append(hs)
     # every KBPK length 0..40 against valid blocks of each version
     for v in "ABCD":
         c = t.gen_case(rng, version=v, profile="few", keylen=16, mask=None)
